@@ -174,3 +174,11 @@ Proof.
   - eexists _, _. split; [reflexivity|]. cbn [d_text_size d_tramp]. repeat split; try lia.
     unfold page_of, align_up, PAGE_SIZE in *. lia.
 Qed.
+
+(* the repaired variant (proposed-fixes/C14-1.diff) never kills the process, and differs from the code
+   as found only where that one dies *)
+Lemma repaired_never_fatal pm d : setup_trampoline_v true pm d <> SetupFatal.
+Proof. unfold setup_trampoline_v. destruct (setup_trampoline pm d) as [[? ?]|]; discriminate. Qed.
+Lemma repaired_same_when_ok pm d pm1 d1 :
+  setup_trampoline_v false pm d = SetupOk pm1 d1 <-> setup_trampoline_v true pm d = SetupOk pm1 d1.
+Proof. unfold setup_trampoline_v. destruct (setup_trampoline pm d) as [[? ?]|]; split; congruence. Qed.
